@@ -192,7 +192,10 @@ class LiteralEvaluator:
 			else:
 				return float(arguments[0])
 		elif org_calls == 'str':
-			return f'"{str(arguments[0])}"'
+			if isinstance(arguments[0], str) and self._allow_string(arguments[0]):
+				return arguments[0]
+			else:
+				return f'"{str(arguments[0])}"'
 
 		raise Errors.OperationNotAllowed(node, calls, arguments)
 
